@@ -33,8 +33,30 @@ func Shrink(vals []uint64, budget int, keep func([]uint64) bool) ([]uint64, int)
 				trim()
 			}
 		}
+		// Zero blocks (keeps the alignment of everything that follows, unlike deletion).
+		for _, bs := range []int{32, 16, 8, 4, 2} {
+			for i := 0; i+bs <= len(cur) && used < budget; i += bs {
+				allZero := true
+				for _, v := range cur[i : i+bs] {
+					if v != 0 {
+						allZero = false
+					}
+				}
+				if allZero {
+					continue
+				}
+				c := append([]uint64(nil), cur...)
+				for k := i; k < i+bs; k++ {
+					c[k] = 0
+				}
+				if try(c) {
+					improved = true
+				}
+			}
+		}
+		trim()
 		// Delete blocks.
-		for _, bs := range []int{8, 4, 2, 1} {
+		for _, bs := range []int{32, 16, 8, 4, 2, 1} {
 			for i := 0; i+bs <= len(cur) && used < budget; {
 				c := append(append([]uint64(nil), cur[:i]...), cur[i+bs:]...)
 				if try(c) {
